@@ -58,6 +58,13 @@ class TailDict(dict):
         t = _tail(key, self.n)
         c = [k for k in dict.keys(self) if k.startswith('synth_utils::') and _tail(k, self.n) == t]
         r = c[0] if len(c) == 1 else None
+        if r is None and not c and self.n == 2 and '::' in t:
+            # an inherent method moved into the impl of a private trait for the same type:
+            # `Type::method` is then `<path::Type as path::Trait>::method`
+            ty, meth = t.rsplit('::', 1)
+            c = [k for k in dict.keys(self) if k.startswith('<synth_utils::') and ' as synth_utils::' in k and k.endswith('>::' + meth)
+                 and _tail(k[1:].split(' as ')[0], 1).split('<')[0] == ty.split('<')[0]]
+            r = c[0] if len(c) == 1 else None
         self._alias[key] = r
         return r
 
@@ -156,6 +163,12 @@ class Facts:
                 if ct is None or self._tykey(f['ty']) == self._tykey(ct) or f['ty'].get('k') != 'adt':
                     continue
                 sub = self.adts.get(f['ty'].get('path'))
+                if self._tykey(ct) == 'bool' and sub is not None and sub.get('kind') == 'enum' and sub.get('crate') == a.get('crate') \
+                        and len(sub['variants']) == 2 and not any(v_['fields'] for v_ in sub['variants']):
+                    # the flag kept its name and became a private two-variant enum (see step c)
+                    a.setdefault('canon_codecs', {})[f['name']] = {'enum': sub['path'], 'vnames': [v_['name'] for v_ in sub['variants']], 'actual_name': f['name']}
+                    continue
+                sub = self.adts.get(f['ty'].get('path'))
                 if sub is None or sub.get('crate') != a.get('crate') or sub.get('kind') != 'struct' or f['ty'].get('path') in canon:
                     continue
                 inner = [(j, g) for j, g in enumerate(sub['variants'][0]['fields']) if self._tykey(g['ty']) == self._tykey(ct)]
@@ -217,6 +230,30 @@ class Facts:
                     self.field_aliases.setdefault(path, {})[n] = '%s (wrapped in %s)' % (f['name'], f['ty'].get('path', '?').split('::')[-1])
                     missing.remove((n, t))
                     extra = [x for x in extra if x is not f]
+            if not missing or not extra:
+                continue
+            # (c) a flag the rules know as `bool` is held as a private enum with two field-less variants (`enum Rollover { Clear,
+            # Pending }`): located by position / name, presented under the canonical name; which variant means `true` is read
+            # from the accessor of the same name (Interp.bool_codecs)
+            for n, t in list(missing):
+                if self._tykey(t) != 'bool':
+                    continue
+                c = []
+                for f_ in extra:
+                    sub = self.adts.get(f_['ty'].get('path')) if f_['ty'].get('k') == 'adt' else None
+                    if sub is None or sub.get('kind') != 'enum' or sub.get('crate') != a.get('crate') or len(sub['variants']) != 2 \
+                            or any(v_['fields'] for v_ in sub['variants']):
+                        continue
+                    c.append((f_, sub))
+                if not c:
+                    continue
+                ci = [x for x, _ in fl].index(n)
+                f_, sub = min(c, key=lambda fs: (0 if fields.index(fs[0]) == ci else 1, -difflib.SequenceMatcher(None, n, fs[0]['name']).ratio()))
+                a.setdefault('canon_codecs', {})[n] = {'enum': sub['path'], 'vnames': [v_['name'] for v_ in sub['variants']], 'actual_name': f_['name']}
+                f_['actual_name'] = f_['name']
+                f_['name'] = n
+                missing.remove((n, t))
+                extra = [x for x in extra if x is not f_]
             if not missing or not extra:
                 continue
             used = set()
